@@ -31,5 +31,15 @@ def fill(add, pending):
         'expected rows cross-checked by a solo evaluation before the threads start.',
         'deterministic simulation: baton-passing thread scheduler (random/PCT schedules), simulated locks and stdout, seeded cache histories',
         'DESIGN.md section 3 C13')
-    for pid in ('C09', 'C10'):
+    add('C10', 'hist+wire', 'exploration',
+        'Seeded search over store histories (every entry path x value kind x declared version incl. non-official strings, refused '
+        'stores as injected faults, in-place row edits to reach the writers) checked after every step against a decision model, '
+        'with both writers asked to dump and both readers fed the output; plus version-skewed peer documents (ZINC/JSON, one '
+        '3.0-only construct at each position) and the scalar API; Grid / zinc writer / json writer / zinc reader / json reader '
+        'decisions compared for the same version string.',
+        'Trusted: the decision model accepts(v) <=> v > 2.0 (non-official versions handled as the closest newer official one, as the '
+        'repository suite pins); value kinds limited to those both dumpers support.',
+        'deterministic simulation: seeded history search + version-skew fault on a writer->channel->reader pipeline vs decision model',
+        'DESIGN.md section 3 C10')
+    for pid in ('C09',):
         pending[pid] = 'designed (DESIGN.md section 3) but its check is not built yet in this commit; not claimed until it is'
